@@ -12,7 +12,7 @@ THEOREMS = ['C09_diag_cube_is_triples', 'C09_cbrt_laws', 'C09_cbrt_mul', 'C09_cc
             'C09_trans_bu_def', 'C09_trans_bd_def', 'C09_trans_wu_def', 'C09_trans_wd_def',
             'C09_no_triangle_zero', 'C09_deg_lt2_zero',
             'C09_range_01_bu', 'C09_range_01_bd', 'C09_range_01_wu', 'C09_range_01_wd', 'C09_range_01_wu_sign',
-            'C09_range_01_trans']
+            'C09_range_01_trans', 'C09_no_division_by_zero']
 RULE = ('all undirected 0/1 graphs n<=4 (quick) / n<=5 (thorough) and all digraphs n<=3 / n<=4 with empty diagonal; '
         'all weighted graphs n=3 (und. 4 weight values; directed 3 values) and n=4 (und., 3 values; every 5th in quick), random weighted graphs n<=8 (undirected, directed, signed) with weights m^3/512, m in 1..8, so that the cube root is exact; '
         'families without triangles (paths, stars, even rings, bipartite, trees), graphs with isolated nodes, complete graphs, '
@@ -378,7 +378,7 @@ def run(ctx):
     B = Bag(ctx, bct)
 
     # ---- exhaustive small binary graphs
-    for n in range(0 if False else 1, ctx.scale(4, 5) + 1):
+    for n in range(1, ctx.scale(4, 5) + 1):
         for A in all_und(n):
             B.und_binary(A, family='exhaustive_und')
     for n in range(1, ctx.scale(3, 4) + 1):
